@@ -8,6 +8,7 @@ package main
 // parsed by the real parser and every field's positions are read back from the file.
 
 import (
+	"unicode/utf8"
 	"bytes"
 	"context"
 	"fmt"
@@ -50,33 +51,52 @@ func c06CaretCheck(text string, lines []string, d diags.Diagnostic, window []c06
 	for _, q := range window {
 		last = max(last, q.Line)
 	}
-	if last < 1 || last > len(lines) || !isASCII(lines[last-1]) {
+	if last < 1 || last > len(lines) {
 		return "", false, false
 	}
 	line := lines[last-1]
-	marks := make([]byte, 0, len(line))
-	maxc := 0
 	in := map[int]bool{}
+	any := false
 	for _, q := range window {
 		if q.Line == last && q.Col <= len(line) {
 			in[q.Col] = true
-			maxc = max(maxc, q.Col)
+			any = true
 		}
 	}
-	if maxc == 0 {
+	if !any {
 		return "", false, false // only the line break of that line is in the window: nothing to underline
 	}
-	runs := 0
-	for c := 1; c <= maxc; c++ {
-		if in[c] {
+	// One mark per CHARACTER of the source line (display column = number of characters before the byte): a caret under a
+	// character iff its bytes are covered (position columns are byte columns), a blank elsewhere, nothing after the last
+	// caret. A window that covers a character only partly (it can only come from a random byte range) is not judged.
+	var starts []int
+	for bi := range line {
+		starts = append(starts, bi)
+	}
+	marks := make([]byte, 0, len(starts))
+	runs, lastCaret := 0, -1
+	for k, bi := range starts {
+		end := len(line)
+		if k+1 < len(starts) {
+			end = starts[k+1]
+		}
+		covered := in[bi+1]
+		for j := bi + 1; j < end; j++ {
+			if in[j+1] != covered {
+				return "", false, false
+			}
+		}
+		if covered {
 			marks = append(marks, '^')
-			if c == 1 || !in[c-1] {
+			if lastCaret != len(marks)-2 || len(marks) == 1 {
 				runs++
 			}
+			lastCaret = len(marks) - 1
 		} else {
 			marks = append(marks, ' ')
 		}
 	}
+	marks = marks[:lastCaret+1]
 	var out string
 	func() {
 		defer func() {
@@ -659,6 +679,41 @@ func c06Oracle(doc c06Doc, rnd *rand.Rand, rep *runReport) c06OracleResult {
 					break
 				}
 			}
+			// carets: a synthetic Diagnostic over a character-aligned range of the value (first one: the whole value), rendered by
+			// the real InjectDiagnostics: the carets must sit exactly under the characters whose bytes the positions denote,
+			// also after non-ASCII text on the line (display column = number of characters before the byte)
+			if !doc.CRLF && !embedded && utf8.ValidString(value) {
+				var bounds []int // byte offsets of character starts, plus len(value)
+				for bi := range value {
+					bounds = append(bounds, bi)
+				}
+				bounds = append(bounds, len(value))
+				for k := 0; k < 2; k++ {
+					i := rnd.Intn(len(bounds) - 1)
+					j := i + 1 + rnd.Intn(len(bounds)-1-i)
+					if k == 0 {
+						i, j = 0, len(bounds)-1
+					}
+					a, b := bounds[i]+1, bounds[j]
+					if b > len(ps) {
+						b = len(ps)
+					}
+					if a > b {
+						continue
+					}
+					dg := diags.Diagnostic{Message: "m", Pos: pos, FirstColumn: a, LastColumn: b}
+					if msg, _, ok := c06CaretCheck(doc.Text, lines, dg, ps[a-1:b]); ok {
+						rep.hist("caret:checked-synthetic")
+						if !isASCII(lines[ps[b-1].Line-1]) {
+							rep.hist("caret:checked-on-non-ascii-line")
+						}
+						if msg != "" {
+							fail(nil, "%s: diagnostic over columns %d-%d of the value: %s", where, a, b, msg)
+							break
+						}
+					}
+				}
+			}
 			// the literal reading (the property as written): fails exactly for bytes hidden behind an escape sequence
 			if isDq && !spells(rbLit, value) {
 				lc := []string(nil)
@@ -714,6 +769,9 @@ func c06Oracle(doc c06Doc, rnd *rand.Rand, rep *runReport) c06OracleResult {
 					all := expandPos(d.Pos)
 					if msg, split, ok := c06CaretCheck(doc.Text, lines, d, all[a-1:b]); ok && !doc.CRLF && doc.Layout != "embedded" {
 						rep.hist("caret:checked")
+						if ll := all[b-1].Line; ll >= 1 && ll <= len(lines) && !isASCII(lines[ll-1]) {
+							rep.hist("caret:checked-on-non-ascii-line")
+						}
 						if msg != "" {
 							cls := gf.Classes
 							_ = split // split ranges render correctly since fix e721538: no class excuses them
@@ -1019,7 +1077,7 @@ func (c *c06Corr) addCarets(text string, lines []string, pr parser.Rule, rnd *ra
 		return
 	}
 	last := dp.Lines().Last
-	if last < 1 || last > len(lines) || !isASCII(lines[last-1]) {
+	if last < 1 || last > len(lines) {
 		return
 	}
 	var out string
@@ -1040,8 +1098,13 @@ func (c *c06Corr) addCarets(text string, lines []string, pr parser.Rule, rnd *ra
 			marks := olines[i+1][digits+3 : len(olines[i+1])-2]
 			id := c.id()
 			c.remember(id, map[string]any{"kind": "caret-marks", "text": text, "line": last, "ranges": dp, "first": a, "last": b, "observed": marks})
-			c.w.add(fmt.Sprintf("CCaret %s %s %s %s %s", coqN(id), coqNat(len(lines[last-1])), coqZ(int64(last)), coqPrs(dp), coqStr(marks)))
-			rep.hist("corr:caret-marks")
+			if isASCII(lines[last-1]) {
+				c.w.add(fmt.Sprintf("CCaret %s %s %s %s %s", coqN(id), coqNat(len(lines[last-1])), coqZ(int64(last)), coqPrs(dp), coqStr(marks)))
+				rep.hist("corr:caret-marks")
+			} else {
+				c.w.add(fmt.Sprintf("CCaretL %s %s %s %s %s", coqN(id), coqStr(lines[last-1]), coqZ(int64(last)), coqPrs(dp), coqStr(marks)))
+				rep.hist("corr:caret-marks-non-ascii-line")
+			}
 			return
 		}
 	}
